@@ -1,2 +1,169 @@
+/-
+  GV.Props.C05 — dead-code elimination never changes behaviour: the selection logic.
+
+  Model: GV.Model.Dce (`select`, transcription of compiler/internal/dce/selector.go as driven by
+  compiler.go:141-156; the inclusion order is the order of the list, the discipline of the pending list is
+  the parameter `pick`).  Spec: GV.Spec.Dce (`Live`, the least set containing the roots and closed under
+  "every non-empty filter occurs among the dependency names of members").
+
+  All theorems are for ALL declaration lists (no bound, no uniqueness assumption on names or ids), all
+  inclusion orders and all pending-list disciplines.
+
+  NOT proved here (checked by the correspondence runs of checks/c05.py instead): that the translator records
+  every dependency (`DeclareDCEDep` call sites) and that the filter names of filters.go identify a dependency
+  with the declaration it refers to.
+-/
 import GV.Model.Dce
 import GV.Spec.Dce
+import GV.Proofs.Dce
+
+namespace GV.Props.C05
+open GV.Dce GV.Spec.Dce
+
+/-- [EQ] The work-list selector selects exactly the least closed set. -/
+theorem select_lfp (pick : Pick) (ds : List Decl) (d : Decl) : d ∈ select pick ds ↔ Live ds d :=
+  GV.Proofs.Dce.select_spec pick ds d
+
+/-- soundness: everything selected is forced by the roots and the recorded dependencies
+(nothing is kept without a reason) -/
+theorem select_sound (pick : Pick) (ds : List Decl) (d : Decl) (h : d ∈ select pick ds) : Live ds d :=
+  (select_lfp pick ds d).1 h
+
+/-- completeness: everything the closure rule demands is selected (nothing needed is dropped) -/
+theorem select_complete (pick : Pick) (ds : List Decl) (d : Decl) (h : Live ds d) : d ∈ select pick ds :=
+  (select_lfp pick ds d).2 h
+
+/-- `Live` really is the least closed set — and therefore so is the selection. -/
+theorem live_is_least_closed (pick : Pick) (ds : List Decl) :
+    Closed ds (· ∈ select pick ds) ∧ ∀ L : Decl → Prop, Closed ds L → ∀ d, d ∈ select pick ds → L d := by
+  constructor
+  · have hc := live_closed ds
+    exact ⟨fun d hd hr => select_complete pick ds d (hc.roots d hd hr),
+      fun e he hf => select_complete pick ds e (hc.step e he fun f hff =>
+        let ⟨d, hd, hdep⟩ := hf f hff
+        ⟨d, select_sound pick ds d hd, hdep⟩)⟩
+  · intro L hL d hd
+    exact live_least ds L hL d (select_sound pick ds d hd)
+
+/-- roots (alive, unnamed, go:linkname implementations) are always selected -/
+theorem select_roots (pick : Pick) (ds : List Decl) (d : Decl) (hd : d ∈ ds) (hr : IsRoot d) : d ∈ select pick ds :=
+  select_complete pick ds d ((live_closed ds).roots d hd hr)
+
+/-- only included declarations are selected -/
+theorem select_subset (pick : Pick) (ds : List Decl) (d : Decl) (h : d ∈ select pick ds) : d ∈ ds :=
+  live_mem (select_sound pick ds d h)
+
+/-- [IND] The selected set does not depend on the order in which declarations are included (nor on
+multiplicity), nor on the discipline of the pending list (LIFO in the code). -/
+theorem select_order_independent (pick₁ pick₂ : Pick) (ds₁ ds₂ : List Decl) (h : ∀ d, d ∈ ds₁ ↔ d ∈ ds₂) (d : Decl) :
+    d ∈ select pick₁ ds₁ ↔ d ∈ select pick₂ ds₂ := by
+  rw [select_lfp, select_lfp]
+  exact live_congr h d
+
+/-- the same for permutations of the inclusion order -/
+theorem select_perm (pick₁ pick₂ : Pick) (ds₁ ds₂ : List Decl) (h : ds₁.Perm ds₂) (d : Decl) :
+    d ∈ select pick₁ ds₁ ↔ d ∈ select pick₂ ds₂ :=
+  select_order_independent pick₁ pick₂ ds₁ ds₂ (fun _ => h.mem_iff) d
+
+/-- `mark` leaves a declaration as it is or sets its `alive` flag -/
+def MarksMore (mark : Decl → Decl) : Prop := ∀ d, mark d = d ∨ mark d = { d with alive := true }
+
+/-- Marking more declarations alive never removes one from the selection. -/
+theorem select_monotone_alive (pick₁ pick₂ : Pick) (mark : Decl → Decl) (hm : MarksMore mark) (ds : List Decl)
+    (d : Decl) (h : d ∈ select pick₁ ds) : mark d ∈ select pick₂ (ds.map mark) := by
+  have hobj : ∀ x, (mark x).obj = x.obj := by intro x; rcases hm x with h | h <;> rw [h]
+  have hmeth : ∀ x, (mark x).meth = x.meth := by intro x; rcases hm x with h | h <;> rw [h]
+  have hdeps : ∀ x, (mark x).deps = x.deps := by intro x; rcases hm x with h | h <;> rw [h]
+  have hroot : ∀ x, IsRoot x → IsRoot (mark x) := by
+    intro x hr
+    rcases hm x with h | h
+    · rw [h]; exact hr
+    · rw [h]; exact Or.inl (by simp [Decl.isAlive])
+  apply select_complete
+  apply select_sound pick₁ ds d h (fun x => Live (ds.map mark) (mark x))
+  constructor
+  · intro x hx hr
+    exact (live_closed _).roots _ (List.mem_map_of_mem hx) (hroot x hr)
+  · intro e he hf
+    apply (live_closed _).step _ (List.mem_map_of_mem he)
+    intro f hff
+    have hff' : IsFilter e f := by
+      refine ⟨hff.1, ?_⟩
+      have h2 := hff.2
+      rw [hobj, hmeth] at h2
+      exact h2
+    obtain ⟨x, hx, hdep⟩ := hf f hff'
+    exact ⟨mark x, hx, by rw [hdeps]; exact hdep⟩
+
+/-- `e` has the single DCE name `n` -/
+def NamedExactly (e : Decl) (n : Name) : Prop :=
+  n ≠ "" ∧ ((e.obj = n ∧ e.meth = "") ∨ (e.obj = "" ∧ e.meth = n))
+
+/-- The hinge of "nothing still needed is removed": for every selected `d` and every dependency name `n`
+recorded for `d`, every declaration named exactly `n` is selected. -/
+theorem select_closed (pick : Pick) (ds : List Decl) (d e : Decl) (n : Name)
+    (hd : d ∈ select pick ds) (hn : n ∈ d.deps) (he : e ∈ ds) (hname : NamedExactly e n) : e ∈ select pick ds := by
+  apply select_complete
+  apply (live_closed ds).step e he
+  intro f hf
+  refine ⟨d, select_sound pick ds d hd, ?_⟩
+  rcases hname.2 with ⟨h1, h2⟩ | ⟨h1, h2⟩
+  · rcases hf.2 with h | h
+    · rw [h, h1]; exact hn
+    · rw [h2] at h; exact absurd h hf.1
+  · rcases hf.2 with h | h
+    · rw [h1] at h; exact absurd h hf.1
+    · rw [h, h2]; exact hn
+
+/-- two-filter declarations (unexported methods): selected as soon as BOTH names are depended upon by selected
+declarations (receiver type alive and the method signature used somewhere) -/
+theorem select_closed_two (pick : Pick) (ds : List Decl) (d₁ d₂ e : Decl)
+    (h₁ : d₁ ∈ select pick ds) (h₂ : d₂ ∈ select pick ds) (ho : e.obj ∈ d₁.deps) (hm : e.meth ∈ d₂.deps)
+    (he : e ∈ ds) : e ∈ select pick ds := by
+  apply select_complete
+  apply (live_closed ds).step e he
+  intro f hf
+  rcases hf.2 with h | h
+  · exact ⟨d₁, select_sound pick ds d₁ h₁, by rw [h]; exact ho⟩
+  · exact ⟨d₂, select_sound pick ds d₂ h₂, by rw [h]; exact hm⟩
+
+/-- ... and NOT selected (unless a root) while one of its names is depended upon by no selected declaration:
+the selection is exact, not merely safe. -/
+theorem select_exact (pick : Pick) (ds : List Decl) (e : Decl) (f : Name) (hf : IsFilter e f) (hr : ¬ IsRoot e)
+    (hno : ∀ d, d ∈ select pick ds → f ∉ d.deps) : e ∉ select pick ds := by
+  intro he
+  have hl := select_sound pick ds e he
+  -- the set "selected and different from e" is closed, contradicting minimality
+  have := hl (fun x => x ∈ select pick ds ∧ x ≠ e) ⟨
+    fun d hd hroot => ⟨select_roots pick ds d hd hroot, fun h => hr (h ▸ hroot)⟩,
+    fun x hx hfx => by
+      refine ⟨select_complete pick ds x ((live_closed ds).step x hx fun g hg =>
+        let ⟨d, hd, hdep⟩ := hfx g hg
+        ⟨d, select_sound pick ds d hd.1, hdep⟩), ?_⟩
+      intro hxe
+      subst hxe
+      obtain ⟨d, hd, hdep⟩ := hfx f hf
+      exact hno d hd.1 hdep⟩
+  exact this.2 rfl
+
+/-! A concrete, non-trivial instance: `main` depends on type `A` and on the unexported signature `m()`;
+`A.m` (both names available) is selected, `A.n` (signature never used) is not. -/
+
+def exMain : Decl := ⟨0, true, false, "p.main", "", ["p.A", "p.m()"]⟩
+def exAm : Decl := ⟨1, false, false, "p.A", "p.m()", ["p.A"]⟩
+def exAn : Decl := ⟨2, false, false, "p.A", "p.n()", ["p.A"]⟩
+
+example (pick : Pick) : exAm ∈ select pick [exMain, exAm, exAn] := by
+  have hmain : exMain ∈ select pick [exMain, exAm, exAn] :=
+    select_roots pick _ exMain (by simp) (Or.inl (by decide))
+  exact select_closed_two pick _ exMain exMain exAm hmain hmain (by decide) (by decide) (by simp)
+
+example (pick : Pick) : exAn ∉ select pick [exMain, exAm, exAn] := by
+  apply select_exact pick _ exAn "p.n()" ⟨by decide, Or.inr rfl⟩
+  · intro h; rcases h with h | h <;> revert h <;> decide
+  · intro d hd
+    have hmem := select_subset pick _ d hd
+    simp only [List.mem_cons, List.mem_nil_iff, or_false] at hmem
+    rcases hmem with h | h | h <;> subst h <;> decide
+
+end GV.Props.C05
